@@ -80,10 +80,36 @@ def late_binding_closures(func_node):
             defined_in_loop = any(x is nf for x in ast.walk(loop))
             if escapes and not defined_in_loop:
                 out.append((nf.name, hit[0], loop.lineno))
+    # closures CREATED inside a loop (def or lambda) share the enclosing function's variable all the same; harmless only
+    # when the closure is consumed before the loop moves on (a key= function, map/filter/any/all/next evaluated in place)
+    for loop in loops:
+        assigned = {n.id for n in ast.walk(loop) if isinstance(n, ast.Name) and isinstance(n.ctx, ast.Store)}
+        in_place = set()
+        for c in ast.walk(loop):
+            if isinstance(c, ast.Call):
+                fname = unparse(c.func).split(".")[-1]
+                for kw in c.keywords:
+                    if kw.arg == "key" and fname in ("sorted", "min", "max", "sort", "groupby"):
+                        in_place.add(id(kw.value))
+                if fname in ("any", "all", "sum", "list", "tuple", "set", "sorted", "next", "join", "extend") and c.args and \
+                        isinstance(c.args[0], ast.Call) and unparse(c.args[0].func).split(".")[-1] in ("map", "filter") and c.args[0].args:
+                    in_place.add(id(c.args[0].args[0]))
+        for n in ast.walk(loop):
+            if not isinstance(n, (ast.Lambda, ast.FunctionDef, ast.AsyncFunctionDef)) or id(n) in in_place:
+                continue
+            if any(isinstance(p, (ast.Lambda, ast.FunctionDef, ast.AsyncFunctionDef)) and p is not func_node and any(x is n for x in ast.walk(p)) and p is not n
+                   for p in ast.walk(loop)):
+                continue        # examined through the enclosing closure
+            hit = sorted(_free_reads(n) & assigned)
+            if hit:
+                name = getattr(n, "name", "<lambda>")
+                if isinstance(n, ast.Lambda) or any(isinstance(x, ast.Name) and x.id == name and isinstance(x.ctx, ast.Load) for x in ast.walk(loop)):
+                    if (name, hit[0], loop.lineno) not in out:
+                        out.append((name, hit[0], loop.lineno))
     return out
 
 
-def check_late_binding(chk, ix, rule="RF5", modules=None):
+def check_late_binding(chk, ix, rule="RF5", modules=None, min_functions=None):
     chk.rule(rule, WHAT["RF5"])
     # positive control
     ctl = ast.parse(_CONTROL).body[0]
@@ -96,7 +122,7 @@ def check_late_binding(chk, ix, rule="RF5", modules=None):
         for node in ast.walk(m.tree):
             if not isinstance(node, (ast.FunctionDef, ast.AsyncFunctionDef)):
                 continue
-            if not any(isinstance(x, (ast.FunctionDef, ast.AsyncFunctionDef)) and x is not node for x in ast.walk(node)):
+            if not any(isinstance(x, (ast.FunctionDef, ast.AsyncFunctionDef, ast.Lambda)) and x is not node for x in ast.walk(node)):
                 continue
             if any(isinstance(p, (ast.FunctionDef, ast.AsyncFunctionDef)) for p in _parents(node)):
                 continue        # examined through its outermost function
@@ -111,7 +137,7 @@ def check_late_binding(chk, ix, rule="RF5", modules=None):
                                  "the nested function %s reads %r, which the loop at line %d rebinds, and %s itself is handed out inside that loop: "
                                  "every copy sees the value of the LAST iteration (e.g. every patched object ends up calling the last "
                                  "object's original method)" % (fname, var, line, fname), file=m.relpath, line=node.lineno, stmt="def " + node.name))
-    if n < 10:
+    if n < (min_functions if min_functions is not None else (10 if modules is None else 3)):
         raise AnalysisError("RF5: only %d functions with nested functions found" % n)
 
 
@@ -340,3 +366,73 @@ def check_iterator_truth(chk, ix, rule="RF6"):
                              "see an empty sequence" % (text, m.relpath, line, tgt), file=m.relpath, line=line, stmt=text))
     if n < 30:
         raise AnalysisError("RF6: only %d modules scanned" % n)
+
+
+WHAT["RF7"] = "no return / break / continue leaves a finally block (it would silently discard the exception that is on its way through)"
+
+_RF7_CONTROL = '''
+def control(fn):
+    try:
+        return fn()
+    finally:
+        if not fn:
+            return None
+'''
+
+
+def jumps_out_of_finally(func_node):
+    """-> [(kind, line)]: return anywhere inside a finally block (not inside a nested function), break / continue
+    inside a finally block whose loop is outside that block"""
+    hits = []
+
+    def scan(stmts, loops_inside):
+        for s in stmts:
+            if isinstance(s, (ast.FunctionDef, ast.AsyncFunctionDef, ast.ClassDef, ast.Lambda)):
+                continue
+            if isinstance(s, ast.Return):
+                hits.append(("return", s.lineno))
+            elif isinstance(s, (ast.Break, ast.Continue)) and loops_inside == 0:
+                hits.append(("break" if isinstance(s, ast.Break) else "continue", s.lineno))
+            inner = loops_inside + (1 if isinstance(s, (ast.For, ast.AsyncFor, ast.While)) else 0)
+            for field in ("body", "orelse", "finalbody"):
+                sub = getattr(s, field, None)
+                if isinstance(sub, list):
+                    # the else-branch of a loop is not inside the loop
+                    scan(sub, loops_inside if (field == "orelse" and isinstance(s, (ast.For, ast.AsyncFor, ast.While))) else inner)
+            for h in getattr(s, "handlers", []) or []:
+                scan(h.body, inner)
+
+    for n in ast.walk(func_node):
+        if isinstance(n, ast.Try) and n.finalbody:
+            owner = next((p for p in _parents(n) if isinstance(p, (ast.FunctionDef, ast.AsyncFunctionDef))), None)
+            if owner is func_node or owner is None:
+                scan(n.finalbody, 0)
+    return hits
+
+
+def check_finally_jumps(chk, ix, rule="RF7", modules=None):
+    chk.rule(rule, WHAT["RF7"])
+    ctl = ast.parse(_RF7_CONTROL).body[0]
+    if not jumps_out_of_finally(ctl):
+        raise AnalysisError("RF7 self-test: the positive control is not reported")
+    n = 0
+    for m in sorted(ix.modules.values(), key=lambda m_: m_.name):
+        if modules is not None and not any(m.name.startswith(p) for p in modules):
+            continue
+        for node in ast.walk(m.tree):
+            if not isinstance(node, (ast.FunctionDef, ast.AsyncFunctionDef)):
+                continue
+            if not any(isinstance(x, ast.Try) and x.finalbody for x in ast.walk(node)):
+                continue
+            n += 1
+            chk.instance(rule)
+            hits = jumps_out_of_finally(node)
+            if not hits:
+                chk.ok(rule, {"function": "%s:%s" % (m.name, node.name), "finally blocks": "no jump out"}, nontrivial_key=(m.name, node.name, node.lineno))
+            for (kind, line) in hits:
+                chk.fail(Finding(rule, "%s:%s" % (m.name, node.name), "%s in finally" % kind,
+                                 "a %s statement at line %d leaves a finally block: an exception raised in the protected block (a failing hook, "
+                                 "a failing step, KeyboardInterrupt) is discarded without a trace when that statement runs" % (kind, line),
+                                 file=m.relpath, line=line, stmt="def " + node.name))
+    if n < 5:
+        raise AnalysisError("RF7: only %d functions with a finally block found" % n)
